@@ -417,8 +417,10 @@ def judge_paths(inp, obs, lr):
     c = inp["calls"][0]
     tags = {"maxlen": c["maxlen"], "dir": "end" if c["end"] is not None else "start"}
     if "exc" in obs:
-        if obs["exc"] == "KeyError" and c["start"] is not None:
-            return None   # start state that is not a vertex of the automaton
+        verts = {v for v, _ in inp["aut"]["graph"]} | {w for _, es in inp["aut"]["graph"] for _, w in es}
+        s0 = c["start"] if c["start"] is not None else (inp["aut"]["starts"] or [None])[0]
+        if obs["exc"] == "KeyError" and c["end"] is None and s0 not in verts:
+            return None   # start state that is not a vertex of the automaton: out_dict[state] raises
         if obs["exc"] == "IndexError" and not inp["aut"]["starts"]:
             return None
         return {"expected": "enumeration", "observed": obs, "tags": dict(tags, exc=obs["exc"])}
